@@ -1,1 +1,2 @@
 //! Independent reference models (oracles). Nothing in here calls the code it judges.
+pub mod tiling;
